@@ -124,6 +124,38 @@ package metrics
 //@   modifies fieldsof(dpWalState), fieldsof(wal.Wal), allbytes
 //@   note frame only (ASSUMED): touches the datapoint WAL state of the block and nothing else of the block
 //@ end
+// C10 (restart replays each completed append into the block it was made for):
+// the identity of a datapoint WAL file — shard, segment, block — is carried by
+// its NAME only, and cleanAndInitNewDpWal is called exactly when that identity
+// has just changed (next block, next segment).  On success the block's current
+// WAL is therefore a file CREATED by this call (initNewDpWal names it after the
+// current identity), after the files of the previous identity were deleted and
+// with the file index back at 0 — never a file kept from before, however empty.
+// Ghosts dpWalDeleted / dpWalCreated: the two steps happened on this path.
+//@ ghostdecl dpWalDeleted int
+//@ ghostdecl dpWalCreated int
+//@ func (*MetricsBlock).cleanAndInitNewDpWal @wal
+//@   props C10
+//@   requires mb != nil
+//@   ghostinit ghost(0, "dpWalDeleted") == 0 && ghost(0, "dpWalCreated") == 0
+//@   site callret mb.deleteDpWalFiles #1:
+//@     ghostset ghost(0, "dpWalDeleted") = 1
+//@   site call mb.initNewDpWal #1:
+//@     assert [the-new-file-is-created-after-the-old-ones-are-deleted-under-index-0] ghost(0, "dpWalDeleted") == 1 && mb.dpWalState.currentWALIndex == 0 && mb.dpWalState.dpIdx == 0 && len(mb.dpWalState.allWALs) == 0
+//@   site callret mb.initNewDpWal #1:
+//@     ghostset ghost(0, "dpWalCreated") = ite(result == nil, 1, 0)
+//@   ensures [success-means-a-wal-file-was-created-for-the-current-block-identity] implies(result == nil, ghost(0, "dpWalCreated") == 1)
+//@ end
+//@ func (*MetricsBlock).deleteDpWalFiles
+//@   assumed
+//@   modifies fieldsof(wal.Wal), allbytes
+//@   note frame only (ASSUMED): deletes the files of the listed WALs
+//@ end
+//@ func (*MetricsBlock).initNewDpWal
+//@   assumed
+//@   modifies mb.dpWalState.currentWal, mb.dpWalState.allWALs, fieldsof(wal.Wal), allbytes
+//@   note frame only (ASSUMED): creates the WAL file named after the block's current identity and makes it current
+//@ end
 //@ func (*MetricsBlock).rotateBlock
 //@   props C08
 //@   requires mb != nil
@@ -384,4 +416,18 @@ package metrics
 //@     assert [the-shared-metadata-wal-is-deleted-only-at-a-forced-rotation] forceRotate
 //@   site store metricsMEntryWalState.wal #1:
 //@     assert [the-shared-metadata-wal-is-dropped-only-at-a-forced-rotation] forceRotate
+//@ end
+
+// C08 (a metrics query over a time range sees every sample in it): the time
+// range of an open metrics segment is what the query path tests for overlap
+// before it looks into the segment, so after a sample is recorded the range
+// contains its timestamp on BOTH sides (the first sample of a segment moves
+// both bounds: lowTS starts at MaxUint32, highTS at 0), and never shrinks.
+//@ func (*MetricsSegment).updateTimeRange
+//@   props C08
+//@   requires ms != nil
+//@   modifies ms.lowTS, ms.highTS
+//@   ensures [the-range-contains-the-sample] ms.lowTS <= ts && ts <= ms.highTS
+//@   ensures [the-range-never-shrinks] ms.lowTS <= old(ms.lowTS) && ms.highTS >= old(ms.highTS)
+//@   ensures [the-range-grows-only-as-far-as-the-sample] (ms.lowTS == old(ms.lowTS) || ms.lowTS == ts) && (ms.highTS == old(ms.highTS) || ms.highTS == ts)
 //@ end
